@@ -158,6 +158,25 @@ def judge(text, o):
             cur.append(t)
         if t.id == 'SE':
             cur = None
+    # envelope discrepancies of a SET (reused ST02, SE02 / SE01 wrong), recounted from the source: they belong to THAT set
+    want_st = {}
+    try:
+        if not all(ss_['st01'] and ss_['st02'] for g_ in src_groups for ss_ in g_['st']):
+            raise ValueError('a header without identifier / control number: which set an error belongs to is left open')
+        # element values as the reader delivers them: trailing empty components dropped
+        flat_r = [[t.id] + [':'.join(ref.trim([c])[0]) if ref.trim([c]) else '' for c in t.eles] for t in toks if t.id is not None]
+        exp_, expend_, loose_ = ref.recount(flat_r)
+        gi_ = -1; si_ = -1
+        for i_, s_ in enumerate(flat_r):
+            if s_[0] == 'GS':
+                gi_ += 1; si_ = -1
+            elif s_[0] == 'ST':
+                si_ += 1
+            for (lvl_, code_) in exp_[i_]:
+                if lvl_ == 'st' and s_[0] in ('ST', 'SE'):
+                    want_st.setdefault((gi_, si_), set()).add(code_)
+    except Exception:
+        want_st = None
     # addressed back to the sender (the ack is written for the last interchange / group header seen)
     last_isa = src[-1]['isa']
     last_gs = src_groups[-1]['gs']
@@ -185,7 +204,7 @@ def judge(text, o):
         late_sets = 0
         if any(not ss['st01'] or not ss['st02'] for ss in sg['st']):
             continue        # a header without identifier / control number: whether it is a 'set received' is left open
-        for (ss, as_, ts) in zip(sg['st'], ag['sets'], tg['st']):
+        for si2, (ss, as_, ts) in enumerate(zip(sg['st'], ag['sets'], tg['st'])):
             if g(as_['ak2'], 1) != echo(ss['st01']) or g(as_['ak2'], 2) != echo(ss['st02'] or '').strip():
                 v.append(('C05|ack|AK2 does not name the set', 'AK2 %r vs ST01/ST02 %r/%r' % (as_['ak2'], ss['st01'], ss['st02'])))
             ne = set_errors(ts)
@@ -200,10 +219,16 @@ def judge(text, o):
                 accepted += 1
             elif late == ne:
                 late_sets += 1
+            # set-level envelope errors sit on the set the recount attributes them to
+            if want_st is not None:
+                w_ = want_st.get((k, si2), set())
+                g_ = set(c for c in ts['errors'] if c in ('3', '4', '23'))
+                if w_ != g_:
+                    v.append(('C05|tree|set-level envelope error on the wrong set', 'set %r (group %d, set %d): the recount expects set-level codes %r here, the tree holds %r' % (ss['st02'], k, si2, sorted(w_), sorted(g_))))
             # itemisation
             v.extend(itemised(ts, as_))
             # the offending value the tree carries is the value the source has at that place
-            v.extend(values_from_source(ts, src_sets.get((k, len([1 for x in sg['st'][:sg['st'].index(ss)]]))), sub_sep))
+            v.extend(values_from_source(ts, src_sets.get((k, si2)), sub_sep))
         ge = group_errors(tg)
         a9 = ag['ak9']
         only_late = ge > 0 and ge == sum(late_errors(t) for t in tg['st'])
